@@ -859,6 +859,24 @@ func c14LinesPoints(c *fw.Ctx, idx int) {
 		gpts[i] = geom.NewPointFlat(layout, flat[i*stride:(i+1)*stride])
 	}
 	mp := geom.NewMultiPointFlat(layout, flat)
+	if r.Chance(1, 3) {
+		// the same points with EMPTY members among them (an empty member has no
+		// position: the mean is still that of the points)
+		var ends []int
+		for i := 0; i < np; i++ {
+			for r.Chance(1, 3) {
+				ends = append(ends, i*stride)
+			}
+			ends = append(ends, (i+1)*stride)
+		}
+		for r.Chance(1, 3) {
+			ends = append(ends, np*stride)
+		}
+		mp = geom.NewMultiPointFlat(layout, flat, geom.NewMultiPointFlatOptionWithEnds(ends))
+		if len(ends) > np {
+			c.Count("multipoints_with_empty_members")
+		}
+	}
 	var p1, p2, p3, p4 geom.Coord
 	if c.Guard("panic", func() {
 		p1 = xy.PointsCentroid(gpts[0], gpts[1:]...)
